@@ -16,7 +16,7 @@ def profile():
         G.SEMANTIC, name='inst', template_modes=('all', 'all', 'all', 'none'),
         class_template_odds=1, member_template_odds=2, max_items=4, max_members=4,
         includes=False, variables=True, enums=True, ns_depth=2, type_depth=4,
-        same_typedef_name_other_ns=True, typedef_weight=3, reopen_ns=True,
+        same_typedef_name_other_ns=True, typedef_weight=3, reopen_ns=True, colliding_member_insts=True,
         scoped_needs_plain_arg=findings.is_open('F-4-scoped-templated-arg'))
 
 
